@@ -435,6 +435,18 @@ def plant(chart):
             s.format.fill.fore_color.rgb = RGBColor.from_string(rgb)
             planted["series"][str(s.index)] = rgb
             n += 1
+        # point-level formatting on the LAST series of the plot (the one replace_data clones from when it needs more
+        # series): c:dPt content belongs to the surviving series and is compared by preservation()
+        sers = list(p.series)
+        if sers:
+            try:
+                pts = sers[-1].points
+                if len(pts):
+                    pts[0].format.fill.solid()
+                    pts[0].format.fill.fore_color.rgb = RGBColor.from_string("654321")
+                    planted["point"] = True
+            except Exception:  # noqa: BLE001   (what point formatting accepts is C09's business)
+                pass
     chart.has_legend = True
     chart.legend.position = XL_LEGEND_POSITION.TOP
     chart.legend.include_in_layout = False
